@@ -1142,6 +1142,12 @@ func (c *dtChannel) close(ctx context.Context) error {
 	}
 	c.lk.Unlock()
 
+	// If there is no graphsync request to cancel (it was never started, or it was already
+	// cancelled), there is nothing to wait for
+	if errch == nil {
+		return nil
+	}
+
 	// Wait for the cancel message to complete
 	select {
 	case err := <-errch:
@@ -1221,6 +1227,12 @@ func (c *dtChannel) shutdown(ctx context.Context) error {
 	c.lk.Lock()
 	errch := c.cancel(ctx)
 	c.lk.Unlock()
+
+	// If there is no graphsync request to cancel (it was never started, or it was already
+	// cancelled), there is nothing to wait for
+	if errch == nil {
+		return nil
+	}
 
 	// Wait for the cancel message to complete
 	select {
